@@ -1,6 +1,7 @@
 (* C01 — Transferred bytes are exactly the file's bytes. Theorems only; proofs in Proofs/TransferP.v, Proofs/TransferE2EP.v *)
 From Coq Require Import List NArith Bool Arith Permutation Strings.Byte.
-From Sftp Require Import Base.GoSem Xfer.Transfer Proofs.TransferP Proofs.TransferE2EP Proofs.TransferOrderP.
+From Sftp Require Import Base.GoSem Xfer.Transfer Proofs.TransferP Proofs.TransferE2EP Proofs.TransferOrderP Proofs.RfcArgP.
+From Coq Require Import ZArith.
 Import ListNotations.
 
 (* every slicer cuts a transfer of n bytes into contiguous chunks of 1..p bytes that add up to n: this is where the
@@ -133,6 +134,34 @@ Print Assumptions C01_splice_commute.
    on every run by the correspondence families c01/c13 (same executable definitions, extracted), which sweep sizes around
    k*maxPacket, all option combinations and server kinds. File.Read / File.Write are ReadAt / WriteAt at File.offset
    followed by offset += n (not separately modelled; exercised by c01). Offsets are nat: no 2^63 wrap-around. *)
+(* ReadFromWithConcurrency's concurrency ARGUMENT: above the client's maximum or below one means the maximum, so at least one
+   worker and at most the maximum are started - whatever the argument (in range, zero, negative, too large) the transfer is the
+   one proved exact above. Tied by the readfromc cases, three quarters of which pass 0, -1 or maximum+7. *)
+Theorem C01_rfc_workers_bounds : forall arg maxc, 1 <= maxc -> 1 <= rfc_workers arg maxc <= maxc.
+Proof. exact rfc_workers_bounds. Qed.
+Print Assumptions C01_rfc_workers_bounds.
+
+Theorem C01_readFromConc_any_argument : forall arg maxc s p src off d, 1 <= maxc ->
+  readFromConcArg 1%Z arg maxc s p src off d = readFromConc s p src off d.
+Proof. exact readFromConc_any_argument. Qed.
+Print Assumptions C01_readFromConc_any_argument.
+
+(* letting 0 through starts no worker: (0, nil) with nothing transferred *)
+Theorem C01_zero_passes_refuted : forall maxc s p src off d,
+  readFromConcArg 0%Z 0%Z maxc s p src off d = (s, 0, None, off).
+Proof. exact zero_passes_refuted. Qed.
+Print Assumptions C01_zero_passes_refuted.
+
+(* the size STAT / FSTAT reports only picks WriteTo's path: whatever it says - the true size, 0 (a /proc file, generated content),
+   too little, too much - WriteTo delivers exactly the rest of the file and leaves the offset at its end (side condition as above,
+   read with the reported size). Tied by the cases whose scripted peer reports another size than the content's. *)
+Theorem C01_writeTo_any_stat_size : forall o s regular statsize off,
+  no_rfail s -> 1 <= maxTx s -> 1 <= maxPacket o ->
+  (concReads o = true -> regular = true -> maxPacket o < statsize -> maxPacket o <= maxTx s) ->
+  writeToS o s regular statsize off = (skipn off (file s), None, Nat.max off (length (file s))).
+Proof. exact writeToS_exact. Qed.
+Print Assumptions C01_writeTo_any_stat_size.
+
 Example C01_nonvacuous :
   let s := mkSrv (pattern 0 10) 100 (fun _ => None) (fun _ => None) in
   let o := mkOpts 3 2 true false false in
